@@ -412,6 +412,66 @@ def check_termination(chk, prog, eff, roots, rule='C06.termination'):
     chk.coverage['loops_classified'] = len(loops)
 
 
+def check_json_terminated(chk, prog, env, model, eff, rulename='C06.decoded-text-terminated'):
+    """a decoded segment handed to the JSON parser is a string: a 0 is stored at index == decoded length (inside the decode buffer,
+    whose size is decoded length + 1 by C11.sizes) before json_loads reads it"""
+    n = 0
+    bad = 0
+    for k, info in sorted(eff.funcs.items(), key=repr):
+        names = set(t[1] for t, nd in info['callsites'])
+        if not ({'jwt_base64uri_decode'} <= names and names & {'json_loads', 'json_loadb'}) or k[0].startswith('tools/'):
+            continue
+        f = info['decl']
+        params = [p_ for p_ in f.get('inner', ()) if isinstance(p_, dict) and p_.get('kind') == 'ParmVarDecl']
+        args = []
+        st = State()
+        for i, p_ in enumerate(params):
+            t = Term(('param', p_.get('name') or str(i)), ptr=('*' in p_.get('type', {}).get('qualType', '')))
+            if '*' in p_.get('type', {}).get('qualType', ''):
+                st.ptrfact[t.k] = 'nonnull'
+            args.append(t)
+        events = []
+
+        class R(Rule):
+            alloc_may_fail = False
+            track_declen = True
+
+            def keep_event(self, ev):
+                return False
+
+            def on_store(self, it, st, loc, path, v, node):
+                if loc[0] == 'obj' and path.startswith('['):
+                    z = dict(st.ts.get('zeroed', {}))
+                    z.setdefault(loc, set())
+                    z[loc] = set(z[loc]) | {(path, isinstance(v, Int) and v.v == 0)}
+                    st.ts['zeroed'] = z
+
+            def on_call(self, it, st, name, args, node):
+                if name in ('json_loads', 'json_loadb') and args and isinstance(args[0], Ref):
+                    dl = st.ts.get('declen', {}).get(args[0].loc)
+                    if dl is None:
+                        return
+                    want = '[%r]' % (('term', dl),)
+                    z = st.ts.get('zeroed', {}).get(args[0].loc, set())
+                    if name == 'json_loadb':
+                        ok = len(args) > 1 and isinstance(args[1], Term) and args[1].k == dl
+                    else:
+                        ok = (want, True) in z
+                    events.append((ok, node_loc(node), sorted(z, key=repr)))
+        it = Interp(prog, k[0], model=model, rule=R(), hooks=H.std_hooks(env))
+        it.run(k[1], args, st)
+        if not events:
+            raise AnalysisBroken('%s: %s decodes and parses but no parser call on a decode buffer was seen' % (rulename, k[1]))
+        for ok, (fl, ln), z in events:
+            n += 1
+            if not ok:
+                bad += 1
+                chk.add(Finding(rulename, fl or k[0], k[1], 'unterminated',
+                                'the decoded text is handed to the JSON parser without a 0 stored at its end (index == decoded length); stores '
+                                'seen: %s' % ([p_ for p_, zz in z] or 'none'), line=ln))
+    chk.rule(rulename, 'every decode buffer handed to json_loads has a 0 stored at index == decoded length first', n, bad, floor=1)
+
+
 def run(chk, prog, tier):
     env = Env(prog)
     model = build_model()
@@ -440,6 +500,7 @@ def run(chk, prog, tier):
     check_private_copy(chk, prog, env, model)
     check_rejection(chk, prog, env, model)
     eff = effects.Effects(prog)
+    chk.guard('decoded text terminated', check_json_terminated, chk, prog, env, model, eff)
     check_termination(chk, prog, eff, [eff.find('jwt_checker_verify', T.VARIANT_UNIT['checker'])])
     chk.assumptions += ['fault model: allocations succeed (the property quantifies over inputs; allocation failure is C17)',
                         'out-of-bounds accesses inside the base64 loops and undefined behaviour in general are NOT decided (would need relational '
